@@ -501,3 +501,23 @@ package client
 //@   opt abstract = Message.Deserialize
 //@   loop 0 invariant receiveChannel == old(receiveChannel)
 //@   assert each_message_its_own_object at send : [C16] v != nil && !handedover(v)
+
+// C17: whatever was queued for the application is handed to every registered handler, exactly once
+// each and whatever the state of the connection is by then (the queue outlives connections, and the
+// ids of queued notifications have been counted already).
+//@ func (*RemoteClient).processHandler
+//@   serves C17
+//@   opt nomonitor = 1
+//@   opt track = HandleTx HandleTxUpdate HandleHeaders HandleInSync HandleMessage
+//@   requires c != nil && msg != nil
+//@   loop 0 invariant 0 <= _i && _i <= len(c.handlers) && ncalls(HandleMessage) == _i && same(c.handlers) && ncalls(HandleTx) == 0 && ncalls(HandleTxUpdate) == 0 && ncalls(HandleHeaders) == 0 && ncalls(HandleInSync) == 0
+//@   loop 1 invariant 0 <= _i && _i <= len(c.handlers) && ncalls(HandleInSync) == _i && same(c.handlers) && ncalls(HandleTx) == 0 && ncalls(HandleTxUpdate) == 0 && ncalls(HandleHeaders) == 0 && ncalls(HandleMessage) == 0
+//@   loop 2 invariant 0 <= _i && _i <= len(c.handlers) && ncalls(HandleHeaders) == _i && same(c.handlers) && ncalls(HandleTx) == 0 && ncalls(HandleTxUpdate) == 0 && ncalls(HandleInSync) == 0 && ncalls(HandleMessage) == 0
+//@   loop 3 invariant 0 <= _i && _i <= len(c.handlers) && ncalls(HandleTxUpdate) == _i && same(c.handlers) && ncalls(HandleTx) == 0 && ncalls(HandleHeaders) == 0 && ncalls(HandleInSync) == 0 && ncalls(HandleMessage) == 0
+//@   loop 4 invariant 0 <= _i && _i <= len(c.handlers) && ncalls(HandleTx) == _i && same(c.handlers) && ncalls(HandleTxUpdate) == 0 && ncalls(HandleHeaders) == 0 && ncalls(HandleInSync) == 0 && ncalls(HandleMessage) == 0
+//@   ensures tx_to_every_handler: [C17] typeis(msg.Payload, *Tx) ==> ncalls(HandleTx) == len(c.handlers) && ncalls(HandleTxUpdate) == 0
+//@   ensures update_to_every_handler: [C17] typeis(msg.Payload, *TxUpdate) ==> ncalls(HandleTxUpdate) == len(c.handlers) && ncalls(HandleTx) == 0
+//@   ensures headers_to_every_handler: [C17] typeis(msg.Payload, *Headers) ==> ncalls(HandleHeaders) == len(c.handlers)
+//@   ensures insync_to_every_handler: [C17] typeis(msg.Payload, *InSync) ==> ncalls(HandleInSync) == len(c.handlers)
+//@   assert hands_over_what_was_queued at call HandleTx : [C17] arg2 == as(msg.Payload, *Tx)
+//@   assert hands_over_the_update_that_was_queued at call HandleTxUpdate : [C17] arg2 == as(msg.Payload, *TxUpdate)
